@@ -21,6 +21,7 @@ var propRunners = map[string]func(c *Checker){
 	"C18": runC18,
 	"C19": runC19,
 	"C20": runC20,
+	"C03": runC03,
 }
 
 func runProperty(P *Program, prop, tier, evid string) int {
